@@ -234,10 +234,15 @@ ADD = ['cls = type(self)',
        'p = np.hstack((self.p.round(decimals=8), other.p.round(decimals=8)))',
        't = np.hstack((self.t, other.t + self.p.shape[1]))',
        'return cls(*self._remove_duplicate_nodes(p, t))']
-CARRY = ('if self.boundaries:\n    boundaries = {}\n    for k in self.boundaries:\n'
-         '        slots = enumerate(mesh.facets.T)\n'
-         '        boundaries[k] = np.array([next(dropwhile(lambda s: not np.array_equal(f, s[1]), slots))[0] '
-         'for f in self.facets.T[np.sort(self.boundaries[k])]], dtype=np.int32)')
+CARRY = ("if self.boundaries:\n    boundaries = {}\n    nv = p.shape[1]\n"
+         "    keys = mesh.facets[0].astype(np.int64) * nv + mesh.facets[1]\n"
+         "    for k, ixs in self.boundaries.items():\n        order = np.argsort(ixs, kind='stable')\n"
+         "        facets = self.facets[:, np.asarray(ixs)[order]]\n"
+         "        newf = np.searchsorted(keys, facets[0].astype(np.int64) * nv + facets[1]).astype(np.int32)\n"
+         "        if isinstance(ixs, OrientedBoundary):\n"
+         "            cells = self.f2t[ixs.ori[order], np.asarray(ixs)[order]]\n"
+         "            ori = mesh.f2t[0, newf] % nt != cells\n"
+         "            boundaries[k] = OrientedBoundary(newf, ori)\n        else:\n            boundaries[k] = newf")
 
 
 def translate_join():
@@ -265,10 +270,11 @@ Definition gen_dedupe_t (p : list key) (t : mat nat) : mat nat :=
 Definition gen_join_p (p1 p2 : list key) : list key := gen_dedupe_p (p1 ++ p2).                    (* hstack((self.p, other.p)) *)
 Definition gen_join_t (p1 p2 : list key) (t1 t2 : mat nat) : mat nat :=
   gen_dedupe_t (p1 ++ p2) (hstack2 t1 (map (map (fun v => v + length p1)) t2)).                  (* hstack((self.t, other.t + n1)) *)
-(* MeshQuad1.to_meshtri, boundaries: one enumerate(mesh.facets.T) iterator per name, consumed by successive next(dropwhile(...)) *)
-Definition gen_carry_boundary (old_facets new_facets : mat nat) (b : list nat) : option (list nat) :=
-  let slots := combine (seq 0 (length new_facets)) new_facets in
-  scan_all (map (fun k => nth k old_facets []) (sort_nat b)) slots.'''
+(* MeshQuad1.to_meshtri, boundaries: every tagged facet is looked up on its own among the sorted facets of the triangle mesh *)
+Definition gen_carry_boundary (nv : nat) (old_facets new_facets : mat nat) (ixs : list nat) : list nat :=
+  let keys := map (fun f => nth 0 f 0 * nv + nth 1 f 0) new_facets in                     (* mesh.facets[0] * nv + mesh.facets[1] *)
+  map (fun i => searchsorted keys (facet_key nv (nth i old_facets []))) (sort_nat ixs).     (* searchsorted(keys, key(facets[:, ixs[order]])) *)
+Definition gen_carry_oriented := lookup_oriented.   (* cells = f2t[ori[order], ixs[order]]; ori = mesh.f2t[0, newf] % nt != cells *)'''
 
 
 SIMPLEX = 'skfem/mesh/mesh_simplex.py'
